@@ -50,6 +50,12 @@ Configs ==
     \cup {[target |-> t, snippets |-> "default", model |-> "valid", arg |-> a] : t \in Targets, a \in ArgDefects}
     \cup {[target |-> "jsonschema", snippets |-> s, model |-> m, arg |-> a] : s \in {"default", "junk_key"}, m \in {"valid", "front_error", "syntax_error"}, a \in ArgDefects}
 
+(* Histories: a configuration is run once, or twice in a row into the same output directory and with the   *)
+(* same model cache (a re-generation: the output files already exist, byte for byte what will be written). *)
+(* Every clause must hold for every run of a history.                                                       *)
+Reruns == {c \in Configs : c.model = "valid" /\ c.snippets \in {"default", "nested_dirs"} /\ c.arg = "none"}
+Histories == {<<c>> : c \in Configs} \cup {<<c, c>> : c \in Reruns}
+
 -----------------------------------------------------------------------------
 Rules == {"prop_not_initialized", "ctor_arg_without_prop", "optional_without_default", "invariant_without_description",
           "duplicate_invariant_description", "unknown_base", "unknown_property_type", "reserved_property_name",
